@@ -11,6 +11,7 @@ least-squares branch of the exponentiated Weibull; ConditionalDistribution (fixe
 """
 import warnings
 
+import math
 import numpy as np
 import scipy.stats as sts
 
@@ -62,6 +63,9 @@ def vary_fixed_values(rng, name, params, farg):
         farg = [0.0 if pn in ZERO_ADMISSIBLE else v for pn, v in zip(params, farg)]
     elif r == 3:
         farg = [0 if pn in ZERO_ADMISSIBLE else (int(max(1, round(v))) if j % 2 else v) for j, (pn, v) in enumerate(zip(params, farg))]
+    if name == "VonMisesDistribution" and rng.integers(0, 3) == 0:
+        # an angle outside the principal interval [-pi, pi) (scipy's fit wraps its location estimate into it), and pi itself
+        farg[params.index("mu")] = float(rng.choice([4.0, -4.5, math.pi, 7.5]))
     return farg, ("numpy" if rng.integers(0, 3) == 0 else "python")
 
 
@@ -613,6 +617,20 @@ def zero_fixed_cases(rng):
                        "data": "own_other_theta", "n": 300, "data_seed": int(rng.integers(0, 2**31)), "gen": "zero-fixed"}
 
 
+def wrapped_angle_cases(rng):
+    """boundary stream: the von Mises location fixed at an angle outside the principal interval [-pi, pi) (scipy's fit
+    wraps the location it returns into that interval) or at pi itself is still THAT value after fitting"""
+    name = "VonMisesDistribution"
+    _, params = sentinel.family(name)
+    j = params.index("mu")
+    for val in (4.0, -4.5, math.pi, 7.5):
+        farg = sentinel.random_values(rng, name, wide=False)
+        theta = sentinel.random_values(rng, name, wide=False)
+        farg[j] = val
+        yield {"kind": "fit", "family": name, "fixed": [j], "farg": farg, "theta": theta,
+               "data": "own", "n": 300, "data_seed": int(rng.integers(0, 2**31)), "gen": "wrapped-angle"}
+
+
 LOCATION_LIKE = {"gamma", "mu", "loc", "mu_norm"}
 
 
@@ -900,7 +918,8 @@ def main(ck):
         for sig, detail in bad:
             ck.fail(sig, case, detail)
     # (2) real fits
-    run_fits(ck, list(zero_fixed_cases(rng)) + list(value_class_cases(rng)) + list(fit_cases(rng, thorough)),
+    run_fits(ck, list(zero_fixed_cases(rng)) + list(wrapped_angle_cases(np.random.default_rng([ck.seed, 11]))) + list(value_class_cases(rng))
+             + list(fit_cases(rng, thorough)),
              8 if thorough else 4)
     # (3) least squares
     for case in lsq_cases(rng, 12 if thorough else 3):
